@@ -310,7 +310,9 @@ func ToCommandLine(wf WireFormat, resolveIds bool) (rule string, err error) {
 				if value <= math.MaxUint16 {
 					rhs = auparse.AuditMessageType(value).String()
 				} else {
-					rhs = fmt.Sprintf("UNKNOWN[%d]", value)
+					// Not a valid record type, but Build accepts any
+					// 32-bit number. Print it in the form Build reads.
+					rhs = strconv.FormatUint(uint64(value), 10)
 				}
 			case permField:
 				rhs = permission(value).String()
